@@ -414,15 +414,9 @@ def decodePack (bs : Bytes) : Except Err Decoded :=
         | .ok (_, _, pos) => .ok (.pack (some seq) (some pt) false none true (some pos) (some (rem.drop 8)) false)
       else .ok (.pack (some seq) (some pt) false none false none none false)
 
-/- watercare.py `handle`.  There is no SETWC branch in the source (finding D4): a SETWC falls through to "must be WCSET".
-If a fix adds one, e.g.
-    if received_bytes.startswith(SETWC_VERB):
-        self._sequence, self.mode = struct.unpack(SET_WATERCARE_FORMAT, remainder); return
-then: (1) harness/gen_c04.py EXPECTED_STRUCT[("Watercare", "handle")] gets one more "u" (in source order),
-(2) add here `else if startsWith bs SETWC_VERB then match unpack2 Watercare_handle_<i> rem with … .watercare (some s) (some m) false false`
-(and renumber the other Watercare_handle_<i>), (3) in Proofs/WireForms.lean replace `| wcSet _ _ => cases hs` by `rt_pack hc`
-(adding Watercare_set_0 / the new format / unpack2 to `rt_unfold`), drop the hypothesis `hs` / `isWcSet` from
-`content_roundtrip`, `C04.roundtrip`, `C04.wire_roundtrip_partial`, and delete `C04.setwc_fields_lost`. -/
+/-- watercare.py `handle`: GETWC / REQWC / SETWC requests stay in the handler list, WCGET carries the mode, anything else
+(WCSET, WCREQ) only marks the handler for removal.  The four `struct.unpack` calls are, in source order, those of the
+GETWC, REQWC, SETWC and WCGET branches (the translator refuses any other count). -/
 def decodeWatercare (bs : Bytes) : Except Err Decoded :=
   let rem := bs.drop 5
   if startsWith bs GETWC_VERB then
@@ -433,8 +427,13 @@ def decodeWatercare (bs : Bytes) : Except Err Decoded :=
     match unpackFirst Watercare_handle_1 rem with
     | .error e => .error e
     | .ok s => .ok (.watercare (some s) none true false)
+  else if startsWith bs SETWC_VERB then
+    -- `self._sequence, self.mode = struct.unpack(SET_WATERCARE_FORMAT, remainder)`
+    match unpack2 Watercare_handle_2 rem with
+    | .error e => .error e
+    | .ok (s, m) => .ok (.watercare (some s) (some m) false false)
   else if startsWith bs WCGET_VERB then
-    match unpackFirst Watercare_handle_2 rem with
+    match unpackFirst Watercare_handle_3 rem with
     | .error e => .error e
     | .ok m => .ok (.watercare none (some m) false true)
   else .ok (.watercare none none false true)
